@@ -264,7 +264,7 @@ def splitTransition (tco : List α) (numMain : Nat) : List α × List α := (tco
 def splitBoundary (bco : List α) (numMain : Nat) : List α × List α := (bco.take numMain, bco.drop numMain)
 
 /-- `AirContext::num_constraint_composition_columns` -/
-def numCompositionColumns (degs : List Degree) (n e : Nat) : Nat :=
+def numCompColumns (degs : List Degree) (n e : Nat) : Nat :=
   let highest := degs.foldl (fun h d => if d.evalDegree n > h then d.evalDegree n else h) 0
   max ((highest - (n - e)) / n + 1) 1
 
